@@ -250,7 +250,7 @@ def path_cases():
                 N.element_from_path(T.Word("entry"), (0,))
             finally:
                 rewrite.WHILE_CUTS.pop(WHILE_KEY, None)
-            return [("C15-P/element_from_path/cut-point-reached", False)]
+            raise EngineUnsupported("the loop under a cut-point contract was not reached: the code was restructured")
         cases.append(core.Case("C15-P/element_from_path/" + la, run, functions=["luqum.naming.element_from_path"]))
 
     def run_exit(cx):
